@@ -29,7 +29,7 @@ def maps_for(ctx, n_random):
     return ms
 
 
-def run_devices(ctx, jobs_spec, n_random_maps, observe="all", only_if=None, extra_args=()):
+def run_devices(ctx, jobs_spec, n_random_maps, observe="all", only_if=None, extra_args=(), out_name="behaviours.ndjson"):
     """jobs_spec: list of (name, cfg text, workers, simulate(num, depth) or None); only_if(mismatch) -> bool restricts what is reported"""
     with cf.ThreadPoolExecutor(max_workers=5) as ex:
         fb = ex.submit(build_harness, ["devices"])
@@ -42,7 +42,7 @@ def run_devices(ctx, jobs_spec, n_random_maps, observe="all", only_if=None, extr
         results = [tlc_ok(f.result()) for f in futs]
         bindir = fb.result()
     emitting = [r for r in results if r["n"] > 0]
-    allb = vlib.concat([r["behaviours"] for r in emitting], os.path.join(ctx.out, "behaviours.ndjson"))
+    allb = vlib.concat([r["behaviours"] for r in emitting], os.path.join(ctx.out, out_name))
     total = sum(r["n"] for r in emitting)
     if total == 0:
         raise ToolError("TLC emitted no behaviours (vacuous run)")
@@ -70,7 +70,7 @@ def run_devices(ctx, jobs_spec, n_random_maps, observe="all", only_if=None, extr
         beh = json.loads(vlib.nth_line(allb, m["line"]))
         dtypes = ",".join(d["type"] for d in beh["scen"]["devs"]) or "terminals"
         sig = "%s:%s:%s" % (beh["family"], dtypes, m["what"].split(" of terminal")[0])
-        ctx.violation(sig, {"replay_kind": "devices", "behaviour": beh, "map": m["map"], "mismatch": m, "observe": observe},
+        ctx.violation(sig, {"replay_kind": "devices", "behaviour": beh, "map": m["map"], "mismatch": m, "observe": observe, "extra_args": list(extra_args)},
                       "%s [%s] behaviour #%d step %d (%s): %s; expected %s, implementation gave %s (timestamp map %s)" % (
                           beh["family"], dtypes, m["line"], m["step"], json.dumps(beh["steps"][m["step"]]["a"]), m["what"],
                           json.dumps(m["exp"]), json.dumps(m["got"]), json.dumps(m["map"])))
@@ -86,7 +86,7 @@ def replay_devices(pid, v):
     mp = os.path.join(out, "replay_one_maps.json")
     json.dump([v["map"]], open(mp, "w"))
     bindir = build_harness(["devices"])
-    mism, summary, _ = run_bin(bindir, "devices", ["replay", bp, mp, "--observe", v.get("observe", "all")])
+    mism, summary, _ = run_bin(bindir, "devices", ["replay", bp, mp, "--observe", v.get("observe", "all")] + list(v.get("extra_args", [])))
     return mism[0] if mism else None
 
 
